@@ -87,6 +87,9 @@ pub enum ColrFault {
     RootBecomesColrGlyph { r: u32, q: u32 },
     /// overwrite the first bytes of layer k's paint with PaintColrGlyph(glyph of record q)
     LayerBecomesColrGlyph { k: u32, q: u32 },
+    /// the child paint of a PaintGlyph that is base record r's root (or the first PaintGlyph among its
+    /// PaintColrLayers layers) becomes PaintColrGlyph(glyph of record r): a certain self-cycle
+    GlyphChildBecomesSelf { r: u32 },
     BitFlip { bit: u32 },
     Truncate { keep_permille: u32 },
 }
@@ -255,6 +258,39 @@ fn apply_faults(cf: &ColorFont, faults: &[ColrFault], touched: &mut Vec<u32>, st
                     touched.push(target as u32);
                 }
             }
+            ColrFault::GlyphChildBecomesSelf { r } if nb > 0 => {
+                let (sr, bbase, gid) = cf.base_slots[(*r % nb) as usize];
+                let root = (rd(&c, sr) + bbase as i64) as usize;
+                // find a PaintGlyph (format 10) that is traversed unconditionally
+                let mut pg: Option<usize> = None;
+                if c.get(root) == Some(&10) {
+                    pg = Some(root);
+                } else if c.get(root) == Some(&1) && root + 6 <= c.len() && nl > 0 {
+                    let n = c[root + 1] as usize;
+                    let first = be32(&c, root + 2).unwrap_or(0) as usize;
+                    for k in first..(first + n).min(cf.layer_slots.len()) {
+                        let (sk, lbase) = cf.layer_slots[k];
+                        let at = (rd(&c, sk) + lbase as i64) as usize;
+                        if c.get(at) == Some(&10) {
+                            pg = Some(at);
+                            break;
+                        }
+                    }
+                }
+                if let Some(pg) = pg {
+                    if pg + 6 <= c.len() {
+                        let child = pg + (((c[pg + 1] as usize) << 16) | ((c[pg + 2] as usize) << 8) | c[pg + 3] as usize);
+                        if child + 3 <= c.len() && child != pg {
+                            c[child] = 11;
+                            c[child + 1..child + 3].copy_from_slice(&gid.to_be_bytes());
+                            stats.bump("fault.colr.paint_glyph_child_overwritten_with_self_reference");
+                            touched.push(gid as u32);
+                            // marker for the oracle: this glyph now certainly contains a cycle
+                            touched.push(0x8000_0000 | gid as u32);
+                        }
+                    }
+                }
+            }
             ColrFault::BitFlip { bit } => {
                 if !c.is_empty() {
                     let i = (*bit as usize / 8) % c.len();
@@ -305,6 +341,7 @@ impl Engine for PaintMonitor {
                 4 => ColrFault::BaseToLayer { r: a, k: b },
                 5 => ColrFault::RootBecomesColrGlyph { r: a, q: if rng.chance(1, 3) { a } else { b } },
                 6 => ColrFault::LayerBecomesColrGlyph { k: a, q: b },
+                7 if rng.chance(1, 2) => ColrFault::GlyphChildBecomesSelf { r: a },
                 7 => ColrFault::BitFlip { bit: rng.below(cf.colr.len() as u64 * 8) as u32 },
                 _ => ColrFault::Truncate { keep_permille: 200 + rng.below(800) as u32 },
             });
@@ -333,6 +370,10 @@ impl Engine for PaintMonitor {
         let Ok(font) = FontRef::new(&img) else { return Verdict::Inconclusive("rebuilt font does not open".into()) };
         let coords: Vec<NormalizedCoord> = t.coords.iter().map(|c| NormalizedCoord::from_bits(*c)).collect();
         let cg = font.color_glyphs();
+        let certain_cycle: Vec<u32> = touched.iter().filter(|g| **g & 0x8000_0000 != 0).map(|g| g & 0xFFFF).collect();
+        touched.retain(|g| *g & 0x8000_0000 == 0);
+        // the expectation is only sound when this is the single fault and the client never paints from its cache
+        let expect_cycle_error = t.faults.len() == 1 && t.cache_answers.iter().all(|a| *a == 0);
         let mut glyphs = touched.clone();
         glyphs.extend_from_slice(&t.glyphs);
         glyphs.sort_unstable();
@@ -354,6 +395,9 @@ impl Engine for PaintMonitor {
                 match &r {
                     Ok(()) => {
                         stats.bump("probe.C13.paint_ok");
+                        if expect_cycle_error && matches!(fmt, ColorGlyphFormat::ColrV1) && certain_cycle.contains(&g) {
+                            return Verdict::Fail(Violation::new("C13", "C13.cycle_reported", format!("glyph {g} of {} was made self-referential below an unconditionally traversed PaintGlyph, yet paint reported success ({} callbacks)", cf.name, m.events)));
+                        }
                         if let Some(why) = &m.bad {
                             return Verdict::Fail(Violation::new("C13", "C13.nesting", format!("paint of glyph {g} of {} reported success but {why}", cf.name)));
                         }
@@ -362,6 +406,9 @@ impl Engine for PaintMonitor {
                         }
                     }
                     Err(e) => {
+                        if expect_cycle_error && certain_cycle.contains(&g) {
+                            stats.bump("oracle.C13.certain_cycle_reported_as_error");
+                        }
                         let s = format!("{e:?}");
                         if s.starts_with("PaintCycleDetected") {
                             stats.bump("probe.C13.cycle_detected");
